@@ -17,8 +17,8 @@ CLAIMS = {
             "composition across the three kinds of threads is on paper; atomics/locks are stand-ins with rely/guarantee and lock-scoped specs"),
     "C03": ("per-function obligations: nonce mismatch against the COMMITTED nonce is never committed speculatively and changes nothing, MAX/MAX goes to replay, no nonce-based outcome with checking off (U05); a speculative validation error only parks the transaction, sequential replay is requested only at the commit head (U04 execute_task X5); replay maps Err(Transaction(e)) to Skipped(e) with the same e and continues; its nonce-overflow pre-check is under contract, and the obligation that a Skipped reason is never fabricated ahead of revm's own validation fails there on the unchanged tree: known finding F3 (known_findings.json, DESIGN.md section 8), reported as KNOWN-FINDING, exit 0 (U06).",
             "that revm's validation is the reference is assumed; the replay closure body (EVM driving) is a stub"),
-    "C04": ("narrow: on a fatal replay error the outcomes are exactly the first k-start and the error carries index k (U06); a database fault at commit returns Err(txid) and appends nothing (U05, U04 run_commit_loop E3); a fatal abort is requested only by an attempt that observes itself at the commit head (U04 X5). The sentence about failures seen only by stale speculative attempts is not decidable here (DESIGN.md section 8, F2).",
-            "post_execute (nested closures over OnceLock) is not extracted"),
+    "C04": ("narrow: on a fatal replay error the outcomes are exactly the first k-start and the error carries index k (U06 execute_sequential_suffix), and replay_uncommitted_suffix appends exactly those outcomes to the results on every exit after the replay, error or not (U06 replay part, around the abstracted EVM-driving closure); a database fault at commit returns Err(txid) and appends nothing (U05, U04 run_commit_loop E3); a fatal abort is requested only by an attempt that observes itself at the commit head (U04 X5). The sentence about failures seen only by stale speculative attempts is not decidable here (DESIGN.md section 8, F2).",
+            "the body of the replay closure (EVM driving) is abstracted"),
     "C07": ("per-function obligations: reward formula and fork rule against a transcribed oracle of upstream's formula (U08 from_gas), the defer/immediate decision incl. zero reward still running revm's hook and deferral only when the beneficiary is not in the journal (U08 BeneficiaryMode::apply), checked-add / materialise-only-by-non-zero-credit / fields preserved (U07 apply_to; U05, U08 and U10 are checked against that contract), credited exactly once at commit with exactly that value, touched, absent from the speculative state (U05 E8), incarnation-guarded record/invalidate, origin-chain scan, whole-chain validation, and resolution = rewards applied oldest first by checked addition onto the nearest snapshot or the block-start anchor (U10 resolve E1, resolve_before E2), exact vs estimate publication per attempt (U04 execute_task X8), journal account classification (U11), beneficiary reads resolve through the history and never through the mutable cache (U12 basic E2).",
             "concurrent record/resolve races are not covered (each scan reads the entries through one fixed view)"),
     "C08": ("per-function obligations: journal account classification as a total decision table (U11); storage() returns the newest of reset marker and slot version, a reset masks the backing store, the same-transaction created slot wins over its own reset, both locations recorded, estimates block (U12); deletion and creation publish a reset marker that is part of the write set, deleted accounts publish an absent Basic value, changed slots publish their present value (U13); cached-account destroy operations equal revm's source (U14); the commit layer dispatches one journal account by the fixed precedence untouched > self-destructed > created > touched-empty > changed, calls exactly the matching status operation, returns its transition, and drops the cached storage of the address exactly on destroy / (re-)creation / empty-touch (U16 apply_evm_state_inner + apply_account_state, call permissions + issued facts).",
@@ -26,7 +26,7 @@ CLAIMS = {
     "C09": ("per-function obligations: basic() resolves basic fields and code separately (latest preceding Basic version / latest preceding Code version else backing store by hash) and records both locations; code_by_address as specified (U12); a Code version (in the write set, with the new code) and a Basic version are published whenever the post-state code hash differs from the hash read (U13 code_changed rule).",
             "EIP-7702 authorisation/nonce rules are revm's"),
     "C10": ("narrow: every status operation of CacheAccountInfo (selfdestruct, touch_empty_eip161, newly_created, change, account_info_change, increment_balance, drain_balance) proved against one common contract that revm-database's own source text also satisfies (U14); the shared read view serves exactly what the cache holds after one atomic insert-if-absent step and never overwrites an entry (U15 db_basic/db_storage/db_code_by_hash/load_mut_cache_account); apply_account_state of grevm and of revm-database's own source text satisfy one dispatch contract (U16); the parallel bundle builder, on an empty bundle, leaves exactly what merging the transitions one by one in some enumeration order leaves (state, contracts, sizes, one new block of reverts kept only when retention asks for them), and delegates to revm's own merge otherwise (U18, against a transcribed oracle of revm's Vacant-entry arm).",
-            "rayon is given its sequential meaning (R22); the slot map built inside newly_created/change (iterator chain, abstracted), update_storage_slot, take_bundle/merge_transitions and concurrent cache filling (finding F1) are not covered"),
+            "rayon is given its sequential meaning (R22); the slot map built inside newly_created/change (iterator chain, abstracted), update_storage_slot, increment_balances/drain_balances (loops over a generic iterator), take_bundle/merge_transitions and concurrent cache filling (finding F1) are not covered"),
     "C11": ("narrow (last sentence of the statement and the installation path): mutations in a static context are refused before any change; a recorded fault is sticky (U17 facade) and overrides whatever the implementation returns in the alloy adapter (U17 to_alloy); both EVM construction paths register the same custom precompiles in order (U21 build_evm).",
             "conflict detection of facade accesses end-to-end needs revm's journal and is not covered"),
     "C12": ("per-function obligations: policy inert before Prague, exact otherwise (U19 for_spec); the guard halts exactly when the frame's TARGET carries a designator, static / pre-Petersburg errors keep upstream's order, otherwise it IS upstream create after one host call (U19 guarded_create); the instruction table is revm's with exactly CREATE and CREATE2 replaced by the two guard instantiations, and it is swapped in iff the guard is on and the fork is Prague or later (U21).",
